@@ -40,6 +40,20 @@ def gen(seed):
             spec['plan'].append(C.fault_entry(d, srng.choice(C.test_phases(d)),
                                               {'a': 'raise', 'exc': 'KeyboardInterrupt',
                                                'where': 'parent'}))
+    if seed % 8 == 3:
+        # a test writes a line to the REAL stderr (fd 2: a C library, a helper process) that
+        # begins like the header of a child's report but is none: totals and lists must not
+        # depend on it, in no mode
+        import random
+        from .. import common as C
+        srng = random.Random(seed ^ 0x5E8)
+        disc = [d for d in W.Model(spec['world']).discover() if C.test_phases(d)]
+        if disc:
+            d = srng.choice(disc)
+            spec['plan'].insert(0, C.fault_entry(d, srng.choice(C.test_phases(d)), {
+                'a': 'write', 'stream': 'realstderr',
+                'text': srng.choice(['1 2 3 4 5\n', '3 2 1 0 liftoff\n', '1 2 3 4x\n',
+                                     '2026 09 30 12:00:01 starting\n', '0 0 0 0 0\n'])}))
     return spec
 
 
